@@ -235,3 +235,91 @@ Proof.
         (conj (proj1 GlueExamples.ex3_coherent) (proj1 (proj2 GlueExamples.ex3_ids)))).
 Qed.
 Print Assumptions glue3_nonvacuous.
+
+(* ================================================================== 4. C15 -> C11: recovery's search is the real query
+   coq/select computes recovery's "Search(ByStatus: Running)" directly over its store (a list of plans):
+     Select.search_running s = map pid (filter durably_running s)              -- in STORE order.
+   coq/query transcribes the real statement (buildSearchQuery, ORDER BY submit_time DESC, the producer
+   goroutine).  GlueSearch.row_of_plan projects a plan to the columns Search reads (id, group, name, descr,
+   submit time, status code; a plan without State - none is ever stored, and Select calls it not Running -
+   gets NotStarted's code); table_of s = map row_of_plan s is the sqlite plans table, cstore_of w s the
+   cosmosdb store of swarm w (search entries carrying w); running_filter = Filters{ByStatus: [Running]}.
+
+   AS I WAS ASKED TO STATE IT ("returns exactly the ids") the claim is true of the ids as a multiset, false of
+   the lists: the real query answers newest first, Select in store order (GlueExamples.ex4_order_differs;
+   the code is ORDER BY submit_time DESC).  The lists coincide when the store is listed newest first.
+   C11's theorems only use membership and NoDup of the resumed ids, so nothing they say depends on it. *)
+From Coq Require Import Sorted.
+From Coercion.Select Require Rows Select.
+From Coercion.Query Require Rows Query Spec.
+From Coercion.Glue Require GlueSearch GlueSearchHistory.
+
+Theorem glue4_search_running_is_query_sqlite :
+  forall s : Coercion.Select.Rows.store,
+    exists xs : list Query.result,
+      Query.sq_search GlueSearch.running_filter (GlueSearch.table_of s) = Some (map Query.SItem xs ++ [Query.SClose]) /\
+      Permutation (map Query.x_id xs) (Select.search_running s) /\
+      (StronglySorted (fun p q => (p_submit q <= p_submit p)%Z) s -> map Query.x_id xs = Select.search_running s).
+Proof. exact GlueSearch.search_running_is_query_sqlite. Qed.
+Print Assumptions glue4_search_running_is_query_sqlite.
+
+Theorem glue4_search_running_is_query_cosmos :
+  forall (w : N) (s : Coercion.Select.Rows.store),
+    exists xs : list Query.result,
+      Query.cosmos_search w GlueSearch.running_filter (GlueSearch.cstore_of w s)
+        = Some (map Query.SItem xs ++ [Query.SClose]) /\
+      Permutation (map Query.x_id xs) (Select.search_running s).
+Proof. exact GlueSearch.search_running_is_query_cosmos. Qed.
+Print Assumptions glue4_search_running_is_query_cosmos.
+
+(* the row projection agrees with Select on what "durably Running" is *)
+Theorem glue4_running_row :
+  forall p : plan,
+    N.eqb (Coercion.Query.Rows.r_status (GlueSearch.row_of_plan p)) (Coercion.Query.Rows.status_code Running)
+    = Select.durably_running p.
+Proof. exact GlueSearch.running_row_of_plan. Qed.
+Print Assumptions glue4_running_row.
+
+(* C15's theorems are about tables reached by histories (sq_run ops).  Under C11's own premise keys_unique,
+   non-nil plan ids and submit times not before 1970 (sqlite clamps earlier ones), Select's store IS the table
+   of the history "Create every plan, in store order" ... *)
+Theorem glue4_store_is_history :
+  forall s : Coercion.Select.Rows.store,
+    Coercion.Select.Rows.keys_unique s -> ~ In 0%N (map Coercion.Select.Rows.pid s) ->
+    Forall (fun p => (0 <= p_submit p)%Z) s ->
+    Coercion.Query.Rows.sq_run (GlueSearchHistory.creates_of s) = GlueSearch.table_of s.
+Proof. exact GlueSearchHistory.table_is_history. Qed.
+Print Assumptions glue4_store_is_history.
+
+(* ... so the published c15_search_exact_sqlite characterises Select's search: its ids are, up to order, the
+   ids of a stream that is newest first, duplicate free, closed, and holds exactly the stored plans whose
+   status matches the filter *)
+Theorem glue4_search_running_by_c15 :
+  forall s : Coercion.Select.Rows.store,
+    Coercion.Select.Rows.keys_unique s -> ~ In 0%N (map Coercion.Select.Rows.pid s) ->
+    Forall (fun p => (0 <= p_submit p)%Z) s ->
+    exists xs : list Query.result,
+      Query.sq_search GlueSearch.running_filter (Coercion.Query.Rows.sq_run (GlueSearchHistory.creates_of s))
+        = Some (map Query.SItem xs ++ [Query.SClose]) /\
+      Permutation (map Query.x_id xs) (Select.search_running s) /\
+      Spec.newest_first xs /\ NoDup (map Query.x_id xs) /\
+      (forall x, In x xs <->
+         exists id v, Spec.get (Spec.spec_run Spec.Sqlite (GlueSearchHistory.creates_of s)) id = Some v /\
+                      Spec.matches GlueSearch.running_filter id v /\ x = Spec.result_of (id, v)).
+Proof. exact GlueSearchHistory.search_running_by_c15. Qed.
+Print Assumptions glue4_search_running_by_c15.
+
+(* instances: coq/select's six-plan store gives [30;40;50;60] on all three; a store with distinct submit
+   times gives [30;40;50] in Select and [40;50;30] from the real query *)
+Theorem glue4_nonvacuous :
+  (Select.search_running Coercion.Select.SelectExamples.ex_store = [30; 40; 50; 60]%N /\
+   GlueExamples.ex4_ids (Query.sq_search GlueSearch.running_filter (GlueSearch.table_of Coercion.Select.SelectExamples.ex_store))
+     = Some [30; 40; 50; 60]%N) /\
+  (Select.search_running GlueExamples.ex4_store = [30; 40; 50]%N /\
+   GlueExamples.ex4_ids (Query.sq_search GlueSearch.running_filter (GlueSearch.table_of GlueExamples.ex4_store))
+     = Some [40; 50; 30]%N).
+Proof.
+  exact (conj (conj (proj1 GlueExamples.ex4_same_ids) (proj1 (proj2 GlueExamples.ex4_same_ids)))
+              (conj (proj1 GlueExamples.ex4_order_differs) (proj1 (proj2 GlueExamples.ex4_order_differs)))).
+Qed.
+Print Assumptions glue4_nonvacuous.
